@@ -233,7 +233,7 @@ theorem enableRedirect_bal {cfg : Cfg} {st : St} (h : Bal cfg st) (hs : st.start
       by simp [enableRedirect, hro, hre], by simp [enableRedirect, hro, hre]⟩
 
 /-- `start`: balanced afterwards; the cursor is hidden exactly when the display ends up started; a failing
-`start` leaves the display started only in today's unguarded `Progress.start`. -/
+`start` leaves the display started only in the unguarded `Progress.start` of rich 9.10.0 as found (before fix 4e4f7e5). -/
 theorem doStart_ctl (cfg : Cfg) (fails : Nat → Bool) (st : St) (h : Bal cfg st) (v : Bool) (hv : v = !st.started) :
     Bal cfg (doStart cfg fails st).st ∧
       lastVis v (doStart cfg fails st).out = !(doStart cfg fails st).st.started ∧
